@@ -214,3 +214,11 @@ def write_two_pieces(stream, b1, b2):
     r1 = stream.write(b1)
     r2 = stream.write(b2)
     return (r1, r2)
+
+
+def open_and_download(client, index, subindex, size, data):
+    """open a raw download stream on the client and write the payload in chunks (what SdoClient.open(..., 'wb',
+    buffering=0) followed by writes and close does)"""
+    from canopen.sdo.client import WritableStream
+    stream = WritableStream(client, index, subindex, size, False)
+    download_in_chunks(stream, data)
